@@ -74,6 +74,32 @@ theorem sortByAge_eq_self {l : List Tbl} (h : l.Pairwise (fun a b => age a < age
       unfold insertByAge
       rw [if_pos (Nat.le_of_lt (h1 y List.mem_cons_self))]
 
+theorem insertByAge_sorted (t : Tbl) {l : List Tbl} (h : l.Pairwise (fun a b => age a ≤ age b)) :
+    (insertByAge t l).Pairwise (fun a b => age a ≤ age b) := by
+  induction l with
+  | nil => exact List.pairwise_singleton _ _
+  | cons x xs ih =>
+    have ⟨h1, h2⟩ := List.pairwise_cons.mp h
+    unfold insertByAge
+    split
+    · rename_i hle
+      refine List.pairwise_cons.mpr ⟨?_, h⟩
+      intro b hb
+      cases hb with
+      | head => exact hle
+      | tail _ hb => exact Nat.le_trans hle (h1 b hb)
+    · rename_i hle
+      refine List.pairwise_cons.mpr ⟨?_, ih h2⟩
+      intro b hb
+      cases (insertByAge_perm t xs).mem_iff.mp hb with
+      | head => omega
+      | tail _ hb => exact h1 b hb
+
+theorem sortByAge_sorted (l : List Tbl) : (sortByAge l).Pairwise (fun a b => age a ≤ age b) := by
+  induction l with
+  | nil => exact List.Pairwise.nil
+  | cons x xs ih => exact insertByAge_sorted x ih
+
 /-! ## the candidate loops -/
 
 theorem takeUntil_sub (met : Nat → Bool) (n : Nat) (l : List Tbl) : ∀ t ∈ (takeUntil met n l).1, t ∈ l := by
@@ -297,7 +323,7 @@ theorem safe_of_picked {L : Levels} {ts : List Tbl} {lvl : Nat} (o : Oracle)
     (h1 : 1 ≤ lvl) (h2 : lvl < L.length)
     (htarget : ∀ t ∈ L.getD lvl [], t ∈ ts)
     (hbelow : ∀ i, lvl < i → ∀ t ∈ L.getD i [], t ∉ ts)
-    (hl0 : (L.headD []).Pairwise (fun older newer => newer ∈ ts → older ∈ ts))
+    (hl0 : (L.headD []).Pairwise (fun older newer => newer ∈ ts → older ∉ ts → DisjointKeys newer.run older.run))
     (hclosed : ∀ i j, i < j → j < lvl → (∃ t ∈ L.getD i [], t ∈ ts) → ∀ t ∈ L.getD j [], t ∈ ts) :
     SafeCS L (ts.map (·.id)) lvl (mergeWrite o ts) := by
   have hhead : ∀ t ∈ L.headD [], t ∈ L.flatten := by
@@ -309,8 +335,10 @@ theorem safe_of_picked {L : Levels} {ts : List Tbl} {lvl : Nat} (o : Oracle)
   · intro t ht; exact (rmP_iff hid hsub (getD_mem_flatten ht)).mpr (htarget t ht)
   · intro i hi t ht; exact rmP_false hid hsub (getD_mem_flatten ht) (hbelow i hi t ht)
   · refine List.Pairwise.imp_of_mem ?_ hl0
-    intro a b ha hb hab hpb
-    exact (rmP_iff hid hsub (hhead a ha)).mpr (hab ((rmP_iff hid hsub (hhead b hb)).mp hpb))
+    intro a b ha hb hab hpb hpa
+    refine hab ((rmP_iff hid hsub (hhead b hb)).mp hpb) ?_
+    intro hin
+    rw [(rmP_iff hid hsub (hhead a ha)).mpr hin] at hpa; cases hpa
   · intro i j hij hj hex t ht
     obtain ⟨x, hx, hpx⟩ := hex
     exact (rmP_iff hid hsub (getD_mem_flatten ht)).mpr
@@ -341,8 +369,8 @@ theorem minorL0_safe {L : Levels} (o : Oracle) (hv : WeakValid L) (hid : (L.flat
     | inr h => exact getD_apart hid (show 1 ≠ i by omega) t h t ht rfl
   · rw [headD_eq_getD]
     apply List.pairwise_of_forall_mem_list
-    intro a ha _ _ _
-    exact List.mem_append_left _ ha
+    intro a ha _ _ _ hna
+    exact absurd (List.mem_append_left _ ha) hna
   · intro i j hij hj; omega
 
 theorem minorDeep_safe {L : Levels} (o : Oracle) (hv : WeakValid L) (hid : (L.flatten.map (·.id)).Nodup)
@@ -374,7 +402,7 @@ theorem minorDeep_safe {L : Levels} (o : Oracle) (hv : WeakValid L) (hid : (L.fl
           | inr h => exact getD_apart hid (show cur + 1 ≠ i by omega) t h t ht rfl
         · rw [headD_eq_getD]
           apply List.pairwise_of_forall_mem_list
-          intro a _ b hb hts
+          intro a _ b hb hts _
           cases List.mem_append.mp hts with
           | inl h => exact absurd rfl (getD_apart hid (show 0 ≠ cur by omega) b hb b h)
           | inr h => exact absurd rfl (getD_apart hid (show 0 ≠ cur + 1 by omega) b hb b h)
@@ -393,7 +421,7 @@ theorem getLastD_eq_getD (L : Levels) : L.getLastD [] = L.getD (L.length - 1) []
   rw [List.getLastD_eq_getLast?, List.getLast?_eq_getElem?, List.getD_eq_getElem?_getD]
 
 theorem major_safe {L : Levels} (o : Oracle) (hv : WeakValid L) (hid : (L.flatten.map (·.id)).Nodup)
-    (hage : L0AgeOrdered L) (h2 : 2 ≤ L.length) :
+    (hage : L0KeyAgeOrdered L) (h2 : 2 ≤ L.length) :
     SafeCS L (majorCompaction L o).rm (majorCompaction L o).lvl (majorCompaction L o).add := by
   unfold majorCompaction
   simp only
@@ -441,15 +469,22 @@ theorem major_safe {L : Levels} (o : Oracle) (hv : WeakValid L) (hid : (L.flatte
     have hmem0 : L.getD 0 [] ∈ L.dropLast.reverse := by
       rw [List.mem_reverse, ← hupper 0 h0]; exact List.getElem_mem h0
     have hcl := majorPick_age_closed o.goalMet 0 L.dropLast.reverse hapU hndU (L.getD 0 []) hmem0
-    have hsorted0 : sortByAge (L.getD 0 []) = L.getD 0 [] := by
-      apply sortByAge_eq_self
-      have := hage
-      unfold L0AgeOrdered at this
-      rwa [headD_eq_getD] at this
-    rw [hsorted0, hpk] at hcl
-    refine List.Pairwise.imp_of_mem ?_ hcl
-    intro a b _ hb hab hts
-    exact List.mem_append_left _ (hab (hnotbase 0 (by omega) b hb hts))
+    rw [hpk] at hcl
+    have hboth := (sortByAge_sorted (L.getD 0 [])).and hcl
+    have hage' := hage
+    unfold L0KeyAgeOrdered at hage'
+    rw [headD_eq_getD] at hage'
+    refine List.Pairwise.imp_of_mem ?_ hage'
+    intro a b ha hb hab hbts hats
+    -- a is older (stored before b), b is picked and a is not: they share no key
+    apply Classical.byContradiction
+    intro hnd
+    have hlt : age a < age b := hab (fun hd => hnd (fun eb heb ea hea hk => hd ea hea eb heb hk.symm))
+    have hbp := hnotbase 0 (by omega) b hb hbts
+    rcases pairwise_or hboth (mem_sortByAge.mpr ha) (mem_sortByAge.mpr hb) with h | h | h
+    · subst h; omega
+    · exact hats (List.mem_append_left _ (h.2 hbp))
+    · have := h.1; omega
   · intro i j hij hj hex t ht
     obtain ⟨x, hx, hxs⟩ := hex
     have hxp := hnotbase i (by omega) x hx hxs
@@ -463,7 +498,7 @@ theorem major_safe {L : Levels} (o : Oracle) (hv : WeakValid L) (hid : (L.flatte
 
 /-- **every change set the compactor produces is safe** -/
 theorem compact_safe {L : Levels} {c : Compactor} {o : Oracle} (hv : WeakValid L)
-    (hid : (L.flatten.map (·.id)).Nodup) (hage : L0AgeOrdered L) (h2 : 2 ≤ L.length)
+    (hid : (L.flatten.map (·.id)).Nodup) (hage : L0KeyAgeOrdered L) (h2 : 2 ≤ L.length)
     {cs : ChangeSet} {c' : Compactor} (h : compact c L o = (some cs, c')) : SafeCS L cs.rm cs.lvl cs.add := by
   unfold compact at h
   split at h
@@ -479,5 +514,26 @@ theorem compact_safe {L : Levels} {c : Compactor} {o : Oracle} (hv : WeakValid L
         exact minorL0_safe o hv hid h2
       · rename_i hc
         exact minorDeep_safe o hv hid L.length c.minorLevel (by omega) h
+
+/-! ## where the level-0 age hypothesis comes from -/
+
+/-- flush-built level 0 -/
+theorem keyAge_of_age {L : Levels} (h : L0AgeOrdered L) : L0KeyAgeOrdered L := by
+  unfold L0AgeOrdered at h
+  unfold L0KeyAgeOrdered
+  exact List.Pairwise.imp (S := fun a b => ¬ DisjointKeys a.run b.run → age a < age b) (fun hab _ => hab) h
+
+/-- a level 0 appended from several sources (`LoadCheckpointList`): every source's list is age-ordered and tables
+of different sources share no key; the sequence numbers of different sources may be related in any way -/
+theorem keyAge_of_sources (srcs : List (List Tbl)) (D : List (List Tbl))
+    (hsrc : ∀ s ∈ srcs, s.Pairwise (fun a b => age a < age b))
+    (hdis : srcs.Pairwise (fun s1 s2 => ∀ a ∈ s1, ∀ b ∈ s2, DisjointKeys a.run b.run)) :
+    L0KeyAgeOrdered (srcs.flatten :: D) := by
+  show (srcs.flatten).Pairwise (fun a b => ¬ DisjointKeys a.run b.run → age a < age b)
+  rw [List.pairwise_flatten]
+  refine ⟨fun s hs => List.Pairwise.imp (S := fun a b => ¬ DisjointKeys a.run b.run → age a < age b)
+    (fun hab _ => hab) (hsrc s hs), hdis.imp ?_⟩
+  intro s1 s2 h12 a ha b hb hnd
+  exact absurd (h12 a ha b hb) hnd
 
 end Rxn.Compaction
